@@ -8,7 +8,7 @@ import ast
 import z3
 
 from pyvc.vals import Val, NONE, I, B, R, Z, ref, fresh, cls_of, ArgPack, Cls, STRINGS, strv, TupleV, Func, Closure, Bound
-from pyvc.verify import Unit, sym_inst, sym_val, user_calls
+from pyvc.verify import Unit, sym_inst, sym_val, user_calls, new_inst
 from pyvc.symexec import Raise, LoopSpec
 from pyvc.b_ops import str_format
 from .base import make_cfg, FIELD_TYPES, INST, OPT, RecordCall
@@ -58,7 +58,7 @@ def _setup(cls_name):
     qn, extra, tf, ef, loop, prefix, mtype = CTORS[cls_name]
 
     def setup(engine, st):
-        me = sym_inst(engine, st, cls_name, "self")
+        me = new_inst(engine, st, cls_name)
         d = sym_val(engine, st, "executor", "delegate")
         name = sym_val(engine, st, "any", "name")
         args = [me, d]
